@@ -82,7 +82,7 @@ type Exchange struct {
 	Latency time.Duration
 	Fault   Fault
 	// Serve produces the honest-or-Byzantine content at the delivery instant.
-	Serve func(x *Exchange, req *http.Request, reqBody []byte, now time.Time) (body []byte, contentType string)
+	Serve   func(x *Exchange, req *http.Request, reqBody []byte, now time.Time) (body []byte, contentType string)
 	ReadCap int64 // size cap the library is expected to honour for this kind
 	Rec     XRec
 }
@@ -133,7 +133,9 @@ func NewNet() *Net {
 // slotKey identifies a slot list by caller and host name: every simulated
 // source has its own host name, so the host identifies the source whatever
 // path or query the library appends (OCSP GET).
-func slotKey(caller int, host string) string { return fmt.Sprintf("%d|%s", caller, strings.ToLower(host)) }
+func slotKey(caller int, host string) string {
+	return fmt.Sprintf("%d|%s", caller, strings.ToLower(host))
+}
 
 func hostOf(u string) string {
 	p, err := url.Parse(u)
